@@ -128,6 +128,7 @@ fn image_row_h<C: RgbColor>(ox: i32, oy: i32, w: u32, h: u32, row: Option<i32>) 
         }
     }
     kani::cover!(rx == wi - 1, "cover: last column reached");
+    kani::cover!(rx == 0 && ry == hi - 1, "cover: bottom-left corner reached");
 }
 
 macro_rules! h {
